@@ -119,6 +119,20 @@ type pairCase struct {
 	Dynamic  bool     `json:"dynamic"`
 	// scripted behaviour of a call
 	ReturnErr bool `json:"return_err"`
+	// ErrKind: which error the handler returns when ReturnErr is set: 0/1 a plain error, 2 an error that IS a
+	// *schema.FunctionCallError marked "not function-reported" (what a handler gets back from calling another
+	// function with the wrong number of arguments and passes on), 3 such an error wrapped with context
+	ErrKind int `json:"err_kind,omitempty"`
+}
+
+func handlerError(kind int) error {
+	switch kind {
+	case 2:
+		return innerCallErr
+	case 3:
+		return wrappedCallErr
+	}
+	return scriptedErr
 }
 
 var resultShapes = [][]string{
@@ -127,6 +141,8 @@ var resultShapes = [][]string{
 }
 
 var scriptedErr = errors.New("scripted handler error")
+var innerCallErr error = schema.NewFunctionCallError(errors.New("inner function called with 1 argument, 2 declared"), false)
+var wrappedCallErr = fmt.Errorf("while computing the result: %w", innerCallErr)
 
 func sampleValue(tn string, k int) reflect.Value {
 	switch tn {
@@ -204,7 +220,7 @@ func runPair(c pairCase) string {
 			case "error":
 				v := reflect.New(errorIface).Elem()
 				if returnErr {
-					v.Set(reflect.ValueOf(scriptedErr))
+					v.Set(reflect.ValueOf(handlerError(c.ErrKind)))
 				}
 				res[i] = v
 			case "fakeerr":
@@ -338,8 +354,8 @@ func runPair(c pairCase) string {
 		hasVal := c.Dynamic || output != nil
 		if hasErr && returnErr {
 			var fce *schema.FunctionCallError
-			if cerr == nil || !errors.As(cerr, &fce) || !fce.IsFunctionReportedError || !errors.Is(fce.SourceError, scriptedErr) {
-				return fmt.Sprintf("Call on %s: handler returned an error; want a function-reported FunctionCallError wrapping it, got (%v, %#v)", ft, res, cerr)
+			if cerr == nil || !errors.As(cerr, &fce) || !fce.IsFunctionReportedError || fce.SourceError != handlerError(c.ErrKind) {
+				return fmt.Sprintf("Call on %s: handler returned the error %#v; want a function-reported FunctionCallError whose source is exactly that error, got (%v, %#v)", ft, handlerError(c.ErrKind), res, cerr)
 			}
 			continue
 		}
@@ -483,12 +499,12 @@ func enumerate(t *testing.T, typeNames, schNames []string, maxParams int, valTyp
 								if !ev.Mine(idx) {
 									continue
 								}
-								judge(t, pairCase{Params: params, Variadic: variadic, Results: results, Inputs: inputs, Output: output, OutErr: outErr, ReturnErr: idx%3 == 0})
+								judge(t, pairCase{Params: params, Variadic: variadic, Results: results, Inputs: inputs, Output: output, OutErr: outErr, ReturnErr: idx%3 == 0, ErrKind: 1 + (idx/3)%3})
 							}
 						}
 						idx++
 						if ev.Mine(idx) {
-							judge(t, pairCase{Params: params, Variadic: variadic, Results: results, Inputs: inputs, Dynamic: true, ReturnErr: idx%3 == 0})
+							judge(t, pairCase{Params: params, Variadic: variadic, Results: results, Inputs: inputs, Dynamic: true, ReturnErr: idx%3 == 0, ErrKind: 1 + (idx/3)%3})
 						}
 					}
 				}
@@ -526,6 +542,7 @@ func TestSampled(t *testing.T) {
 		shape := rapid.SampledFrom(resultShapes).Draw(rt, "shape")
 		c.Results = concretise(shape, rapid.SampledFrom(goTypeNames).Draw(rt, "vtype"))
 		c.ReturnErr = rapid.Bool().Draw(rt, "returnErr")
+		c.ErrKind = rapid.IntRange(1, 3).Draw(rt, "errKind")
 		c.Dynamic = rapid.IntRange(0, 4).Draw(rt, "dynamic") == 0
 		if rapid.IntRange(0, 3).Draw(rt, "independent") == 0 {
 			k := rapid.IntRange(0, 3).Draw(rt, "nInputs")
